@@ -115,7 +115,7 @@ def run_case(i, rng, tier):
                 h = S.build(fsp)
                 S.FAULT["mode"] = mode
                 S.FAULT["exc"] = rng.choice(S.FAULT_EXCEPTIONS) if mode == "raise" else None
-                S.FAULT["pick"] = rng.randrange(10 * 28)
+                S.FAULT["pick"] = rng.randrange(10 * 28 * 3)
                 if mode == "raise":
                     sets.setdefault("exception_classes", set()).add(S.FAULT["exc"].__name__ if S.FAULT["exc"] else "InjectedFault")
                 survivors = []
